@@ -57,7 +57,7 @@ def run_script(lines, profile='dev'):
         if not l: continue
         w = l.split(' ', 1)
         if w[0] == 'out':
-            out.append(('out', [hex2f(h) for h in w[1].split()]))
+            out.append(('out', [hex2f(h) for h in w[1].split() if h.startswith('0x')]) + tuple(x for x in w[1].split() if not x.startswith('0x')))
         elif w[0] in ('str', 'err', 'bytes'):
             out.append((w[0], w[1] if len(w) > 1 else ''))
         elif w[0] == 'usize':
